@@ -10,7 +10,7 @@ RULE = ("Pipeline cases: 1-2 contigs (400-1200 bp), well separated variants of a
         "(60-350 bp, single or paired, soft clips, =/X CIGARs; boundaries never cut a variant, except that a sixth of the reads "
         "end or start inside the REF allele of a deletion/MNP their haplotype does not carry), depth 2-25 with "
         "--internal-downsampling drawn from 2..15 so that the cap binds; options --tag PS|HP, --only-snvs, --sample and "
-        "--chromosome subsets; in a quarter of the cases a VCF with the true phase of a random subset of the variants is a second phase "
+        "--chromosome subsets, --mapping-quality 20/30 with chimeric decoy alignments below the threshold or flagged supplementary (must not reach the solver); in a quarter of the cases a VCF with the true phase of a random subset of the variants is a second phase "
         "input (pseudo reads, preferred by read selection); in a quarter of the cases the reads are split over two alignment files with coinciding read names. Oracle: for every selected sample and every phase set of the output (decoded with pysam), "
         "the phased alleles equal the true haplotype pair or its swap, one choice per phase set; in the traced solver instances every "
         "read allele equals the allele of the haplotype the read was copied from, every read (pair) carries all heterozygous "
@@ -39,6 +39,24 @@ def gen(draw):
         case["phased_vcf_enc_hp"] = draw(st.booleans())
     # the reads may arrive in two alignment files whose read names coincide (names need only be unique within a file)
     case["two_files"] = draw(st.integers(0, 3)) == 0
+    # decoys: alignments that the documented options exclude from the reads given to the phasing (--mapping-quality: reads
+    # below it are discarded; supplementary alignments are used only with --use-supplementary); they are chimeras of the
+    # two haplotypes, so using any of them would contradict the error-free reads
+    case["mapq_threshold"] = draw(st.sampled_from([20, 20, 30]))
+    decoys = []
+    for sp in case["read_specs"]:
+        if "pair" in sp or draw(st.integers(0, 9)) != 0:
+            continue
+        n = len(case["variants"][sp["chrom"]])
+        H = case["haps"][sp["sample"]][sp["chrom"]]
+        d = {"name": sp["name"] + "_decoy", "sample": sp["sample"], "chrom": sp["chrom"], "hap": sp["hap"], "segments": [list(x) for x in sp["segments"]],
+             "alleles": [H[(vi + sp["hap"]) % 2][vi] for vi in range(n)], "decoy": draw(st.sampled_from(["mapq", "mapq", "supplementary"]))}
+        if d["decoy"] == "mapq":
+            d["mapq"] = draw(st.sampled_from([0, 5, 19])) if case["mapq_threshold"] == 20 else draw(st.sampled_from([0, 20, 29]))
+        else:
+            d["flag"] = 2048
+        decoys.append(d)
+    case["read_specs"] = case["read_specs"] + decoys
     # single-sample input whose BAM has no read groups at all: --ignore-read-groups
     case["no_read_groups"] = len(samples) == 1 and draw(st.integers(0, 4)) == 0
     # reads of a REF-carrying haplotype may end (after >= 2 bases) or start inside the REF allele of a deletion / MNP
@@ -78,6 +96,10 @@ def check_read_alleles(case, trace, ctx, sigprefix="truth", reads=None, only_snv
             sp = spec.get(r["name"])
             if sp is None:
                 ctx.violation(sigprefix + ":unknown-read", "read %r in the solver instance was never written" % r["name"])
+                continue
+            if sp.get("decoy"):
+                ctx.violation(sigprefix + ":filtered-alignment-used:" + sp["decoy"], "alignment %s (%s, mapq %r) entered the solver although the reader has to ignore it" % (
+                    r["name"], sp["decoy"], sp.get("mapq", 60)))
                 continue
             hap = case["haps"][sp["sample"]][sp["chrom"]][sp["hap"]]
             if r["name"] in records:
@@ -194,6 +216,10 @@ class TruthPart:
             bams = [G.write_bam(case, reads, os.path.join(d, "reads_norg.bam"), read_groups=False)]
             kw["ignore_read_groups"] = True
             ctx.label("no-read-groups")
+        if case.get("mapq_threshold", 20) != 20:
+            kw["mapping_quality"] = case["mapq_threshold"]
+        if any(sp.get("decoy") for sp in case["read_specs"]):
+            ctx.label("decoy-alignments")
         inputs = list(bams)
         if case.get("phased_vcf_input"):
             ph = {s: {cn: {vi: 7 for vi in vis} for cn, vis in per.items()} for s, per in case["phased_vcf_subset"].items()}
